@@ -556,6 +556,11 @@ def _missing_et(ctx, chk, load):
             for s in qsites:
                 if s.stmt is not None and s.stmt.kind == "select" and {"grid_time", "evapotranspiration_staging"} <= stmt_reads(s.stmt):
                     best = (g, s)
+        compares = [s_ for s_ in ctx.sites_in(f) if s_.stmt is not None and s_.stmt.kind == "select"
+                    and {"grid_time", "evapotranspiration_staging"} <= stmt_reads(s_.stmt)]
+        if best is None and compares:
+            chk.indeterminate("C11.O4", where_of(f, compares[0].call), "a query compares grid_time with evapotranspiration_staging, but no raising guard could be traced to its result")
+            continue
         if best is None:
             chk.ob("C11.O4", False, where_of(f, sites[0].call), "no refusal derived from a grid_time / evapotranspiration_staging comparison",
                    "grid instants without ET are refused before evapotranspiration is written",
